@@ -150,6 +150,12 @@ pub enum Strategy {
     /// positions were drawn is the honest one, and a further commitment - to a remainder
     /// interpolated through the queried points after the positions are known - is appended last
     S8ExtraCommitment,
+    /// the remainder that is committed (before the positions are drawn) and sent has FEWER
+    /// coefficients than the schedule allows: the first `len` coefficients of the last fold's
+    /// interpolant (`pick` selects len among 1, half the size, any smaller power of two). A
+    /// legitimate, stronger claim when the dropped coefficients are zero; otherwise it disagrees
+    /// with the last fold and must be refused wherever the queries fall
+    S9ShortRemainder { pick: usize },
 }
 
 pub struct Built<E: FieldElement, H: ElementHasher<BaseField = E::BaseField>> {
@@ -230,6 +236,17 @@ where
             let deg = coeffs.iter().rposition(|c| *c != E::ZERO).unwrap_or(0);
             let size = (deg + 1).next_power_of_two().max(honest_size);
             coeffs[..size.min(coeffs.len())].to_vec()
+        },
+        Strategy::S9ShortRemainder { pick } => {
+            let size = honest_size.min(coeffs.len());
+            // (the wire format only carries remainders whose length is a power of two)
+            let logs = size.ilog2().max(1) as usize;
+            let len = match pick % 3 {
+                0 => 1,
+                1 => (size / 2).max(1),
+                _ => 1usize << ((pick / 3) % logs),
+            };
+            coeffs[..len.min(size)].to_vec()
         },
         _ => coeffs[..honest_size.min(coeffs.len())].to_vec(),
     };
